@@ -46,6 +46,18 @@ pub fn is_basic_blank(b: u8) -> bool {
     b.is_ascii_whitespace() && b != b'\n'
 }
 
+/// The repository's two sample programs as typed lines (blank lines dropped).
+pub fn repo_program(which: usize) -> Vec<String> {
+    let f = ["/repo/programs/chemist.bas", "/repo/programs/hamurabi.bas"][which % 2];
+    std::fs::read_to_string(f).unwrap_or_default().lines().map(|l| l.trim_end_matches('\r').to_string()).filter(|l| !l.trim().is_empty()).collect()
+}
+
+/// Reply scripts for the sample programs (they ask for numbers).
+pub fn numeric_replies() -> impl Strategy<Value = Vec<String>> {
+    const POOL: &[&str] = &["0", "1", "5", "10", "20", "100", "1000", "2.5", "-1", "abc", "", "3,4", "7:8", " 12 "];
+    prop::collection::vec((0..POOL.len()).prop_map(|i| POOL[i].to_string()), 0..40)
+}
+
 /// Lines of the repository's sample programs and tests (seed corpus).
 pub fn repo_lines() -> Vec<String> {
     let mut out = vec![];
